@@ -20,8 +20,9 @@ import (
 //	import "sync"           ->  verifshim/vsync,  "sync/atomic" -> verifshim/vatomic
 
 var schedImports = map[string][2]string{
-	"sync":        {"sync", modPath + "/verifshim/vsync"},
-	"sync/atomic": {"atomic", modPath + "/verifshim/vatomic"},
+	"sync":                  {"sync", modPath + "/verifshim/vsync"},
+	"sync/atomic":           {"atomic", modPath + "/verifshim/vatomic"},
+	"github.com/creack/pty": {"pty", modPath + "/verifshim/vpty"},
 }
 
 // schedImported: the last rewriteSched call added the vsched import
@@ -150,6 +151,13 @@ func (rw *schedRewriter) expr(e *ast.Expr) (recv bool) {
 		}
 		return rw.expr(&x.X)
 	case *ast.CallExpr:
+		if se, ok := x.Fun.(*ast.SelectorExpr); ok && se.Sel.Name == "NewParser" && len(x.Args) == 1 {
+			if as, ok := x.Args[0].(*ast.SelectorExpr); ok && as.Sel.Name == "pty" {
+				// the parser of the embedded terminal reads the PTY through the scheduler
+				x.Args[0] = call(sel("pty", "Reader"), x.Args[0])
+				rw.changed = true
+			}
+		}
 		if id, ok := x.Fun.(*ast.Ident); ok && id.Name == "close" && len(x.Args) == 1 {
 			rw.expr(&x.Args[0])
 			x.Fun = sel("vsched", "Close")
